@@ -602,7 +602,10 @@ def main(argv):
     # ---- single-counter states -------------------------------------------------------------------
     # every form that consumes objects of class X: all start values of the single set;
     # forms that do not consume X ("irrelevant" counter): start values 9 and 99 only (+ the whole sweep)
-    single_set = [] if quick else DENSE
+    pair_set = PAIR_QUICK if quick else PAIR_FULL
+    multi_set = MULTI_QUICK if quick else MULTI_FULL
+    # every start value used in a multi-counter state is also explored alone
+    single_set = sorted(set([] if quick else DENSE) | set(pair_set) | set(multi_set))
     irrelevant_set = IRRELEVANT_QUICK if quick else IRRELEVANT_FULL
     plan = {(): list(names)}
     for c in COUNTERS:
@@ -631,8 +634,6 @@ def main(argv):
 
     _progress(run, f"{len(singles)} single-counter states done")
     # ---- multi-counter states: per form, the full product over the counters the form consumes -----
-    pair_set = PAIR_QUICK if quick else PAIR_FULL
-    multi_set = MULTI_QUICK if quick else MULTI_FULL
     mplan = {}
     for n in names:
         for r in range(2, len(support[n]) + 1):
